@@ -41,37 +41,78 @@ Qed.
 Lemma caret_count_pos : forall l, (1 <= caret_count l)%nat.
 Proof. intros l. unfold caret_count. destruct (_ =? _); lia. Qed.
 
-Lemma format_total_lem : forall S m txt,
+Lemma render_names_position : forall m sl, names_position_any m (render m sl).
+Proof.
+  intros m sl l0 rest E. unfold render. rewrite E. cbn [header]. eexists. cbn [app]. reflexivity.
+Qed.
+
+Lemma render_shows_line : forall m sl, shows_line m sl (render m sl).
+Proof.
+  intros m sl Hne. unfold render, snippet. destruct sl as [|c sl]; [contradiction|]. cbn [is_nil].
+  eexists. exists (caret_count (mloc m)). split; [apply caret_count_pos|]. reflexivity.
+Qed.
+
+Lemma source_line_inside : forall S m txt,
   lsyn (mloc m) = false -> lookup (mfile m) S = Some txt -> inside txt (mloc m) ->
-  exists line r,
-    nth_error (splitlines txt) (N.to_nat (pline (lstart (mloc m)) - 1)) = Some line /\
-    format S m = Some r /\ names_position m r /\ shows_line m line r.
+  exists line, nth_error (splitlines txt) (N.to_nat (pline (lstart (mloc m)) - 1)) = Some line /\
+               source_line_of S m = line /\ source_line_of_old S m = Some line.
 Proof.
   intros S m txt Hs Hl [H1 H2].
   destruct (py_index_inside (splitlines txt) _ H1 H2) as [line [Hn Hp]].
-  exists line. unfold format, source_line_of. rewrite Hs, Hl, Hp.
-  eexists. split; [exact Hn|]. split; [reflexivity|]. split.
-  - intros l0 rest E. rewrite E. cbn [header]. unfold prefix_text, position_text, pos_str. rewrite Hs.
-    eexists. cbn [app]. rewrite <- !app_assoc. reflexivity.
-  - intros Hne. unfold snippet. destruct line as [|c line]; [contradiction|]. cbn [is_nil].
-    eexists. exists (caret_count (mloc m)). split; [apply caret_count_pos|]. reflexivity.
+  exists line. split; [exact Hn|]. unfold source_line_of, source_line_of_old. rewrite Hs, Hl, Hp.
+  split; [|reflexivity]. cbv zeta.
+  destruct ((0 <? pline (lstart (mloc m))) && (N.to_nat (pline (lstart (mloc m))) <=? List.length (splitlines txt))%nat) eqn:E.
+  - apply nth_error_nth. exact Hn.
+  - exfalso. apply andb_false_iff in E. destruct E as [E|E].
+    + apply N.ltb_ge in E. lia.
+    + apply Nat.leb_gt in E. lia.
 Qed.
 
-Lemma format_total_unknown_lem : forall S m,
-  lsyn (mloc m) = true \/ lookup (mfile m) S = None -> exists r, format S m = Some r.
+Lemma format_total_lem : forall S m txt,
+  lsyn (mloc m) = false -> lookup (mfile m) S = Some txt -> inside txt (mloc m) ->
+  exists line,
+    nth_error (splitlines txt) (N.to_nat (pline (lstart (mloc m)) - 1)) = Some line /\
+    names_position m (format S m) /\ shows_line m line (format S m).
 Proof.
-  intros S m H. unfold format, source_line_of.
-  destruct (lsyn (mloc m)); [eexists; reflexivity|].
-  destruct H as [H|H]; [discriminate|]. rewrite H. eexists; reflexivity.
+  intros S m txt Hs Hl Hin.
+  destruct (source_line_inside S m txt Hs Hl Hin) as [line [Hn [Hsl _]]].
+  exists line. split; [exact Hn|]. unfold format. rewrite Hsl. split.
+  - intros l0 rest E. destruct (render_names_position m line l0 rest E) as [tail Ht].
+    exists tail. rewrite Ht. unfold prefix_text, position_text, pos_str. rewrite Hs.
+    rewrite <- !app_assoc. reflexivity.
+  - apply render_shows_line.
 Qed.
 
-Lemma format_fails_iff_lem : forall S m,
-  format S m = None <->
+(* whatever the location: every line of the message carries the file name and the position text *)
+Lemma format_prefix_lem : forall S m, names_position_any m (format S m).
+Proof. intros. apply render_names_position. Qed.
+
+(* a location outside the file (or an unknown file, or a synthetic location): header only *)
+Lemma format_outside_lem : forall S m,
+  (lsyn (mloc m) = true \/ lookup (mfile m) S = None \/
+   exists txt, lookup (mfile m) S = Some txt /\ ~ inside txt (mloc m)) ->
+  format S m = header m true false (splitlines (mtext m)).
+Proof.
+  intros S m H. unfold format, render.
+  assert (E : source_line_of S m = []).
+  { unfold source_line_of. destruct (lsyn (mloc m)) eqn:Es; [reflexivity|].
+    destruct H as [H|[H|[txt [Hl Hout]]]]; [discriminate|rewrite H; reflexivity|].
+    rewrite Hl. cbv zeta.
+    destruct ((0 <? pline (lstart (mloc m))) && (N.to_nat (pline (lstart (mloc m))) <=? List.length (splitlines txt))%nat) eqn:E;
+      [|reflexivity].
+    exfalso. apply Hout. apply andb_true_iff in E. destruct E as [E1 E2].
+    apply N.ltb_lt in E1. apply Nat.leb_le in E2. split; lia. }
+  rewrite E. cbn. apply app_nil_r.
+Qed.
+
+(* the version before f285438 *)
+Lemma old_format_fails_iff_lem : forall S m,
+  format_old S m = None <->
   (lsyn (mloc m) = false /\ exists txt, lookup (mfile m) S = Some txt /\
      ((N.to_nat (pline (lstart (mloc m))) > List.length (splitlines txt))%nat
       \/ (pline (lstart (mloc m)) = 0 /\ splitlines txt = []))).
 Proof.
-  intros S m. unfold format, source_line_of.
+  intros S m. unfold format_old, source_line_of_old.
   destruct (lsyn (mloc m)).
   - split; [discriminate|intros [H _]; discriminate].
   - destruct (lookup (mfile m) S) as [txt|].
@@ -83,14 +124,21 @@ Proof.
     + split; [discriminate|]. intros [_ [t [Ht _]]]. discriminate.
 Qed.
 
-(* synthetic messages render as [compiler bug]; others never do *)
-Lemma synthetic_marker_lem : forall S m r l0 rest,
-  format S m = Some r -> splitlines (mtext m) = l0 :: rest ->
-  exists tail, r = (BOLD, source_name m ++ [58] ++ (if lsyn (mloc m) then s2l "[compiler bug]" else pos_str (lstart (mloc m))) ++ [58; 32]) :: tail.
+(* old and new format agree wherever the location is inside the file *)
+Lemma format_old_agrees_lem : forall S m txt,
+  lsyn (mloc m) = false -> lookup (mfile m) S = Some txt -> inside txt (mloc m) ->
+  format_old S m = Some (format S m).
 Proof.
-  intros S m r l0 rest Hf E. unfold format in Hf. destruct (source_line_of S m); [|discriminate].
-  inversion Hf; subst r. rewrite E. cbn [header]. unfold prefix_text, position_text.
-  eexists. cbn [app]. reflexivity.
+  intros S m txt Hs Hl Hin. destruct (source_line_inside S m txt Hs Hl Hin) as [line [_ [H1 H2]]].
+  unfold format_old, format. rewrite H1, H2. reflexivity.
+Qed.
+
+(* synthetic messages render as [compiler bug]; others never do *)
+Lemma synthetic_marker_lem : forall S m l0 rest,
+  splitlines (mtext m) = l0 :: rest ->
+  exists tail, format S m = (BOLD, source_name m ++ [58] ++ (if lsyn (mloc m) then s2l "[compiler bug]" else pos_str (lstart (mloc m))) ++ [58; 32]) :: tail.
+Proof.
+  intros S m l0 rest E. destruct (format_prefix_lem S m l0 rest E) as [tail Ht]. exists tail. exact Ht.
 Qed.
 
 (* ------------------------------------------------------------------------- *)
@@ -285,75 +333,91 @@ End PipelineProofs.
 (* format_errors                                                              *)
 (* ------------------------------------------------------------------------- *)
 
-Lemma opt_all_some : forall {A} (l : list (option A)),
-  (forall o, In o l -> o <> None) -> exists r, opt_all l = Some r.
+(* every group non-empty: the whole error list renders, wherever the locations are *)
+Lemma format_errors_total_lem : forall e S,
+  (forall g, In g e -> g <> []) -> exists s, format_errors e S = Some s.
 Proof.
-  induction l as [|[x|] t IH]; intros H.
-  - eexists; reflexivity.
-  - destruct IH as [r Hr]; [intros o Ho; apply H; right; exact Ho|].
-    cbn. rewrite Hr. eexists; reflexivity.
-  - exfalso. apply (H None); [left; reflexivity|reflexivity].
+  intros e S Hne. unfold format_errors.
+  destruct (existsb is_nil e) eqn:E; [|eexists; reflexivity].
+  apply existsb_exists in E. destruct E as [g [Hg Hn]]. apply is_nil_true in Hn.
+  exfalso. apply (Hne g Hg Hn).
 Qed.
 
-(* every message locatable and every group non-empty: the whole error list renders *)
-Lemma format_errors_total_lem : forall e S,
-  (forall g, In g e -> g <> []) ->
-  (forall g m, In g e -> In m g ->
-     lsyn (mloc m) = true \/ lookup (mfile m) S = None \/
-     exists txt, lookup (mfile m) S = Some txt /\ inside txt (mloc m)) ->
-  exists s, format_errors e S = Some s.
+Lemma format_errors_fails_iff_lem : forall e S, format_errors e S = None <-> In [] e.
 Proof.
-  intros e S Hne Hloc. unfold format_errors.
-  destruct (existsb is_nil e) eqn:E.
-  - apply existsb_exists in E. destruct E as [g [Hg Hn]]. apply is_nil_true in Hn.
-    exfalso. apply (Hne g Hg Hn).
-  - destruct (opt_all_some (map (format S) (List.concat e))) as [r Hr].
-    + intros o Ho. apply in_map_iff in Ho. destruct Ho as [m [<- Hm]].
-      apply in_concat in Hm. destruct Hm as [g [Hg Hm]].
-      destruct (Hloc g m Hg Hm) as [H|[H|[txt [H1 H2]]]].
-      * destruct (format_total_unknown_lem S m (or_introl H)) as [r Hr]. congruence.
-      * destruct (format_total_unknown_lem S m (or_intror H)) as [r Hr]. congruence.
-      * destruct (lsyn (mloc m)) eqn:Es.
-        -- destruct (format_total_unknown_lem S m (or_introl Es)) as [r Hr]. congruence.
-        -- destruct (format_total_lem S m txt Es H1 H2) as [line [r [_ [Hr _]]]]. congruence.
-    + rewrite Hr. eexists; reflexivity.
+  intros e S. unfold format_errors. destruct (existsb is_nil e) eqn:E.
+  - split; [intros _|reflexivity]. apply existsb_exists in E. destruct E as [g [Hg Hn]].
+    apply is_nil_true in Hn. subst g. exact Hg.
+  - split; [discriminate|]. intros H. assert (existsb is_nil e = true) by (apply existsb_exists; exists []; auto).
+    congruence.
 Qed.
 
 (* ------------------------------------------------------------------------- *)
 (* make_error_from_parse_error                                                *)
 (* ------------------------------------------------------------------------- *)
 
-Lemma parse_error_message_total_refuted_lem :
-  exists np file e, make_error_from_parse_error np file e = None.
-Proof. exists [], (s2l "m.emb"), (mkPE None EndOfInput [s2l """\n"""]). reflexivity. Qed.
+Lemma parse_error_defined_iff_lem : forall np file e,
+  (exists g, make_error_from_parse_error np file e = Some g) <-> is_tok (pe_token e) = true.
+Proof.
+  intros np file e. unfold make_error_from_parse_error. destruct (pe_token e); cbn.
+  - split; [reflexivity|intros _; eexists; reflexivity].
+  - split; [intros [g H]; discriminate|discriminate].
+Qed.
 
-Lemma parse_error_message_total_partial_lem : forall np file e,
-  pe_token e <> EndOfInput ->
+Lemma parse_error_message_lem : forall np file e,
+  is_tok (pe_token e) = true ->
   exists m, make_error_from_parse_error np file e = Some [m] /\ mfile m = file /\ msev m = SError /\
             exists sym tx l, pe_token e = Tok sym tx l /\ mloc m = location_or_default l /\
                              mtext m = parse_error_text np (pe_code e) tx sym (pe_expected e).
 Proof.
   intros np file e H. unfold make_error_from_parse_error.
-  destruct (pe_token e) as [sym tx l|]; [|contradiction].
+  destruct (pe_token e) as [sym tx l|]; [|discriminate].
   eexists. split; [reflexivity|]. cbn. repeat split. exists sym, tx, l. auto.
 Qed.
 
-Lemma parse_error_defined_iff_lem : forall np file e,
-  (exists g, make_error_from_parse_error np file e = Some g) <-> pe_token e <> EndOfInput.
+(* lr1.Parser.parse (after ca2355e): whatever position the Error action is found at, the reported
+   token is a parser_types.Token, so the message is always built *)
+Lemma error_token_is_tok : forall tokens cursor t,
+  forallb is_tok tokens = true -> error_token end_marker tokens cursor = Some t -> is_tok t = true.
 Proof.
-  intros np file e. unfold make_error_from_parse_error. destruct (pe_token e).
-  - split; [discriminate|intros _; eexists; reflexivity].
-  - split; [intros [g H]; discriminate|intros H; contradiction].
+  intros tokens cursor t Hall H. unfold error_token in H. apply nth_error_In in H.
+  apply in_app_or in H. destruct H as [H|[<-|[]]]; [|reflexivity].
+  rewrite forallb_forall in Hall. apply Hall. exact H.
 Qed.
 
-(* the message of a located token points at that token *)
-Lemma parse_error_location_lem : forall np file code sym tx l exp,
-  loc_truthy l = true ->
-  exists m, make_error_from_parse_error np file (mkPE code (Tok sym tx (Some l)) exp) = Some [m] /\
-            mloc m = l /\ mfile m = file.
+Lemma parse_error_message_total_lem : forall np file tokens cursor code expected,
+  forallb is_tok tokens = true -> (cursor <= List.length tokens)%nat ->
+  exists t m, error_token end_marker tokens cursor = Some t /\
+              make_error_from_parse_error np file (mkPE code t expected) = Some [m] /\
+              mfile m = file /\ msev m = SError /\ mloc m = location_or_default (tok_loc t).
 Proof.
-  intros. eexists. split; [reflexivity|]. cbn. rewrite H. auto.
+  intros np file tokens cursor code expected Hall Hc.
+  destruct (error_token end_marker tokens cursor) as [t|] eqn:Et.
+  2:{ unfold error_token in Et. apply nth_error_None in Et. rewrite app_length in Et. cbn in Et. lia. }
+  pose proof (error_token_is_tok _ _ _ Hall Et) as Ht.
+  destruct t as [sym tx l|]; [|discriminate].
+  eexists. eexists. split; [reflexivity|]. split; [reflexivity|]. cbn. auto.
 Qed.
+
+(* before ca2355e the marker was an lr1.Symbol: every syntax error at end of input crashed (F3) *)
+Lemma old_parse_error_message_refuted_lem :
+  exists np file tokens cursor code expected t,
+    forallb is_tok tokens = true /\ (cursor <= List.length tokens)%nat /\
+    error_token end_marker_old tokens cursor = Some t /\
+    make_error_from_parse_error np file (mkPE code t expected) = None.
+Proof.
+  exists [], (s2l "m.emb"), [Tok (s2l "CamelWord") (s2l "Foo") (at_ 1 8 11)], 1%nat, None, [s2l "Indent"].
+  eexists. repeat split; cbn; auto.
+Qed.
+
+(* where the end-of-input marker sits: at the end of the last token *)
+Lemma end_marker_location_lem : forall tokens sym tx l,
+  last (map Some tokens) None = Some (Tok sym tx (Some l)) -> loc_truthy l = true ->
+  end_marker tokens = Tok [36] [] (Some (mkLoc (lend l) (lend l) false)).
+Proof. intros tokens sym tx l H Ht. unfold end_marker. rewrite H. cbn. rewrite Ht. reflexivity. Qed.
+
+Lemma end_marker_empty_lem : end_marker [] = Tok [36] [] None.
+Proof. reflexivity. Qed.
 
 (* ------------------------------------------------------------------------- *)
 (* tokenizer layout: where tokens and errors sit                              *)
@@ -480,23 +544,15 @@ Lemma length_to_nat : forall {A} (l : list A) (n : N),
   1 <= n <= N.of_nat (List.length l) -> (N.to_nat n <= List.length l)%nat.
 Proof. intros. lia. Qed.
 
-(* tokenizer errors lie inside the file, hence always render *)
+(* tokenizer errors lie inside the file (so format_total applies to them) *)
 Lemma tokenizer_error_inside_lem : forall file line_toks text e,
   tokenize file line_toks text = TErr e ->
-  exists m, e = [[m]] /\ mfile m = file /\ lsyn (mloc m) = false /\ inside text (mloc m) /\
-            exists r, format [(file, text)] m = Some r.
+  exists m, e = [[m]] /\ mfile m = file /\ msev m = SError /\ lsyn (mloc m) = false /\ inside text (mloc m) /\
+            1 <= pcol (lstart (mloc m)).
 Proof.
   intros file lt text e H. unfold tokenize in H.
   destruct (tok_lines_errors file lt _ _ _ _ H) as [m [H1 [H2 [H3 [H4 [H5 H6]]]]]]; [discriminate|].
-  exists m. split; [exact H1|]. split; [exact H2|]. split; [exact H4|].
-  assert (Hin : inside text (mloc m)) by (split; lia).
-  split; [exact Hin|].
-  destruct (format_total_lem [(file, text)] m text H4) as [line [r [_ [Hr _]]]].
-  - cbn. rewrite H2. assert (Hrefl : forall s, str_eqb s s = true).
-    { induction s; cbn; [reflexivity|]. rewrite N.eqb_refl. exact IHs. }
-    rewrite Hrefl. reflexivity.
-  - exact Hin.
-  - exists r. exact Hr.
+  exists m. repeat split; try assumption; lia.
 Qed.
 
 (* every token except the end-of-file Dedents lies inside the file *)
@@ -513,23 +569,42 @@ Proof.
   - right. exact Hd.
 Qed.
 
-(* F16: the end-of-file Dedent is outside the file and a syntax error reported there cannot be rendered *)
+(* F16: the end-of-file Dedent is outside the file; a syntax error reported there names a position
+   that is not in the file *)
 Definition f16_text : str := s2l "s:" ++ [10] ++ s2l "  b:" ++ [10].
 Definition f16_line_toks (ln : N) (L : str) : line_result := LToks [] false.
 
 Lemma dedent_position_refuted_lem :
-  exists file line_toks text ts t l g,
+  exists file line_toks text ts t l m,
     tokenize file line_toks text = TOk ts /\ In t ts /\ tok_loc t = Some l /\
-    insideb text l = false /\
-    make_error_from_parse_error [] file (mkPE None t [s2l "Indent"]) = Some g /\
-    format_errors [g] [(file, text)] = None.
+    make_error_from_parse_error [] file (mkPE None t [s2l "Indent"]) = Some [m] /\
+    mfile m = file /\ lsyn (mloc m) = false /\ insideb text (mloc m) = false.
 Proof.
   exists (s2l "m.emb"), f16_line_toks, f16_text.
   eexists. exists (dedent_tok 3 1). eexists. eexists.
   split; [vm_compute; reflexivity|].
   split; [cbn; right; right; right; left; reflexivity|].
-  split; [reflexivity|]. split; [vm_compute; reflexivity|].
-  split; [reflexivity|]. vm_compute. reflexivity.
+  split; [reflexivity|]. split; [reflexivity|]. split; [reflexivity|]. split; [reflexivity|].
+  vm_compute. reflexivity.
+Qed.
+
+(* ... and before f285438 rendering that message against the file's own text raised IndexError *)
+Lemma old_dedent_format_crash_lem :
+  exists file text m, lookup file [(file, text)] = Some text /\ insideb text (mloc m) = false /\
+                      format_errors_old [[m]] [(file, text)] = None /\
+                      exists s, format_errors [[m]] [(file, text)] = Some s.
+Proof.
+  exists (s2l "m.emb"), f16_text, (mk_error (s2l "m.emb") (at_ 3 1 1) (s2l "x")).
+  split; [reflexivity|]. split; [vm_compute; reflexivity|]. split; [vm_compute; reflexivity|].
+  eexists. vm_compute. reflexivity.
+Qed.
+
+(* the end-of-input marker inherits the problem: after final Dedents it sits on line n+1 too *)
+Lemma end_marker_after_dedent_lem : forall ts n,
+  end_marker (ts ++ [dedent_tok (n + 1) 1]) = Tok [36] [] (Some (mkLoc (mkPos (n + 1) 1) (mkPos (n + 1) 1) false)).
+Proof.
+  intros ts n. unfold end_marker. rewrite map_app. cbn [map]. rewrite last_last. cbn -[N.add].
+  unfold loc_truthy. cbn -[N.add]. destruct (N.eqb_spec (n + 1) 0); [lia|reflexivity].
 Qed.
 
 (* in general: whenever a block is still open at the end of the text, the Dedents that close it are not inside *)
@@ -547,20 +622,21 @@ Definition ex_msg : message :=
   mk_error (s2l "m.emb") (Some (mkLoc (mkPos 2 11) (mkPos 2 15) false)) (s2l "Bad type" ++ [10] ++ s2l "second line").
 
 Example format_example :
-  option_map plain (format [(s2l "m.emb", ex_text)] ex_msg) =
-  Some (s2l "m.emb:2:11: error: Bad type" ++ [10] ++ s2l "m.emb:2:11: note: second line" ++ [10]
-        ++ s2l "  0 [+1]  UInt  x" ++ [10] ++ s2l "          ^^^^").
+  plain (format [(s2l "m.emb", ex_text)] ex_msg) =
+  s2l "m.emb:2:11: error: Bad type" ++ [10] ++ s2l "m.emb:2:11: note: second line" ++ [10]
+        ++ s2l "  0 [+1]  UInt  x" ++ [10] ++ s2l "          ^^^^".
 Proof. vm_compute. reflexivity. Qed.
 
 Example format_hypotheses_satisfiable :
   lsyn (mloc ex_msg) = false /\ lookup (mfile ex_msg) [(s2l "m.emb", ex_text)] = Some ex_text /\ inside ex_text (mloc ex_msg).
 Proof. split; [reflexivity|]. split; [reflexivity|]. split; cbn; lia. Qed.
 
-Example format_negative_index :
-  (* location (0,0) indexes source_lines[-1]: the last line *)
-  option_map plain (format [(s2l "m.emb", ex_text)] (mk_error (s2l "m.emb") None (s2l "x"))) =
+Example format_no_location :
+  (* location (0,0): no source line (before f285438 this indexed source_lines[-1], the last line) *)
+  plain (format [(s2l "m.emb", ex_text)] (mk_error (s2l "m.emb") None (s2l "x"))) = s2l "m.emb:0:0: error: x" /\
+  option_map plain (format_old [(s2l "m.emb", ex_text)] (mk_error (s2l "m.emb") None (s2l "x"))) =
   Some (s2l "m.emb:0:0: error: x" ++ [10] ++ s2l "  0 [+1]  UInt  x" ++ [10] ++ s2l "^").
-Proof. vm_compute. reflexivity. Qed.
+Proof. split; vm_compute; reflexivity. Qed.
 
 Definition ex_syn : loc := mkLoc (mkPos 1 1) (mkPos 1 2) true.
 Definition ex_pass_user : pass unit := fun ir => (ir, [[mk_error (s2l "m.emb") (Some (mkLoc (mkPos 1 1) (mkPos 1 2) false)) (s2l "u")]]).
